@@ -124,6 +124,8 @@ def _alphabet() -> list[L]:
         L("Mark: a", "Mark"),
         L("Frobnicate: 1", "Frobnicate"),
         L("Zz", "Zz"),
+        L(": 5", ": 5", note="nothing before the colon: not an instruction at all"),
+        L("-Mark: a", "-Mark", note="does not parse as an instruction"),
         L("Marc: a", "Marc"),
         L("Valve: Open", "Valve"),
         L("Valve: Half", "Valve", note="argument outside the command's language"),
